@@ -80,6 +80,7 @@ EXHAUSTIVE = {"quick": False, "thorough": False}
 
 F_CLOCK = "C19-clock-cached"
 F_OPTS = "C19-plugin-options-mutated"
+F_ALPHA = "C19-K5-alpha-codes-repeat-across-runs"
 
 CSV_TEXT = "a,b\n1,x\n2,y\n3,z\n4,w\n5,v\n"
 SHARED_OPTS = {"pid": 7}          # a non-empty options dict owned by the embedding application
@@ -104,8 +105,12 @@ def _is_sf_class(cls):
     return isinstance(cls, type) and (getattr(cls, "__module__", "") or "").split(".")[0] == PREFIX
 
 
+_LRU_TYPE = type(functools.lru_cache()(lambda: None))
+
+
 def _is_lru(v):
-    return hasattr(v, "cache_info") and hasattr(v, "__wrapped__")
+    # by type, never by hasattr: objects of the package may answer any attribute (PluginResult)
+    return isinstance(v, _LRU_TYPE)
 
 
 class Walker:
@@ -145,22 +150,29 @@ class Walker:
             return "ref:" + type(v).__name__ + ":" + str(getattr(v, "__qualname__", getattr(v, "__name__", "?")))
         if _is_sf_class(type(v)):
             parts = []
-            d = getattr(v, "__dict__", None)
+            try:
+                d = object.__getattribute__(v, "__dict__")
+            except Exception:
+                d = None
             if isinstance(d, dict):
                 for k in sorted(d, key=str):
                     parts.append(str(k) + "=" + self.fp(d[k], depth + 1, stack))
             for cls in type(v).__mro__:
-                for s in getattr(cls, "__slots__", ()) or ():
+                for s in vars(cls).get("__slots__", ()) or ():
                     if isinstance(s, str) and s not in ("__dict__", "__weakref__"):
                         try:
-                            parts.append(s + "=" + self.fp(getattr(v, s), depth + 1, stack))
-                        except AttributeError:
-                            pass
+                            x = object.__getattribute__(v, s)
+                        except Exception:
+                            continue
+                        parts.append(s + "=" + self.fp(x, depth + 1, stack))
             return "obj:" + type(v).__qualname__ + "(" + ",".join(parts) + ")"
         return "foreign:%s.%s@%x" % (type(v).__module__, type(v).__qualname__, id(v))
 
     def add(self, loc, v):
-        f = self.fp(v)
+        try:
+            f = self.fp(v)
+        except Exception as e:      # an object that cannot be inspected still has an identity
+            f = "uninspectable:%s:%s@%x" % (type(e).__name__, type(v).__name__, id(v))
         self.locs[loc] = f if len(f) <= 80 else _h(f)
 
     def walk_function(self, loc, f, seen):
@@ -257,6 +269,8 @@ MODELLED = [
 WHITELIST = [
     (re.compile(r"__warningregistry__"), "warnings registry"),
     (re.compile(r"\.yaml_(multi_)?representers$"), "yaml representer registry (filled when a plugin module is imported)"),
+    (re.compile(r"\.__slotnames__$"), "copyreg slot-name memo put on a class when an instance is first pickled "
+                                      "(a function of the class definition)"),
 ]
 
 
@@ -578,6 +592,12 @@ def yaml_pool():
     add("nick_var_other_meaning",
         "- var: base\n  value: 7\n- object: B\n  nickname: first\n  count: 2\n  fields:\n    x: ${{base * id}}\n"
         "- object: A\n  fields:\n    a:\n      reference: first\n    y: ${{first.x}}\n", feats=["nickname", "variable"])
+    add("just_once_nick",
+        "- object: A\n  just_once: true\n  nickname: first\n  fields:\n    x: 5\n- object: B\n  fields:\n"
+        "    a:\n      reference: first\n", reps=2, feats=["nickname", "just_once"])
+    add("uses_first_only", "- object: B\n  fields:\n    y: ${{first.x}}\n", feats=["nickname", "fails"])
+    add("uses_table_A_only", "- object: B\n  fields:\n    y: ${{A.x}}\n    r:\n      reference: A\n",
+        feats=["nickname", "fails"])
     add("uses_undefined_names",
         "- object: B\n  fields:\n    y: ${{first.x + base}}\n", feats=["nickname", "variable", "fails"])
     add("forward_ref",
@@ -695,6 +715,7 @@ def _directed(rng, pool_yaml):
     out.append(seq([today, today]))
     out.append(seq([Y["dataset_iterate_named"], Y["dataset_iterate_named"], Y["dataset_missing"], Y["dataset_iterate"]]))
     out.append(seq([Y["nick_var"], Y["uses_undefined_names"], Y["nick_var_other_meaning"], Y["uses_undefined_names"]]))
+    out.append(seq([Y["just_once_nick"], Y["uses_first_only"], Y["uses_table_A_only"], Y["nick_var"], Y["uses_first_only"]]))
     out.append(seq([Y["counter_named_in_var"], counters, Y["counter_named_in_var"]]))
     out.append(seq([Y["random_reference_unique"], Y["random_reference_unique_exhausted"], Y["random_reference_unique"]],
                    api="generate_data"))
@@ -1010,7 +1031,7 @@ def _decode_num(v):
     from snowfakery.utils.scrambled_numbers import unscramble_number
     s = str(unscramble_number(int(v)))
     parts = [int(x, 8) for x in s.split("9")]
-    return parts if len(parts) == 2 else None
+    return parts if len(parts) in (1, 2) else None     # [context, index], or [index] (template `index`)
 
 
 def _decode_alpha(code):
@@ -1020,7 +1041,7 @@ def _decode_alpha(code):
 
 
 def decode_uid(kind, val):
-    """-> (ctx, idx) or None"""
+    """-> [ctx, idx], [idx] (the text carries no context) or None"""
     try:
         if kind in ("uid", "puid") and val[0] == "int":
             return _decode_num(val[1])
@@ -1107,7 +1128,12 @@ def _obs_terms(spec, rows, codes, windows, learn, dtab, dttab):
             if kind in ("uid", "puid", "alpha"):
                 ci = decode_uid(kind, v)
                 slot = {"uid": "SlotNum", "puid": "SlotPluginNum", "alpha": "SlotAlpha"}[kind]
-                out.append(f"(BUid {slot} {C.cz(ci[0])} {C.cz(ci[1])})" if ci else f"(BUid {slot} (-1) (-1))")
+                if ci and len(ci) == 2:
+                    out.append(f"(BUid {slot} {C.cz(ci[0])} {C.cz(ci[1])})")
+                elif ci and kind == "alpha":
+                    out.append(f"(BUidIdx {slot} {C.cz(ci[0])})")
+                else:
+                    out.append(f"(BUid {slot} (-1) (-1))")
             elif kind in ("date", "datecounter"):
                 key = model_key(f[1], f[2]) if kind == "date" else f[1]
                 if learn:
@@ -1224,55 +1250,50 @@ def coq_case(case, obs):
 
 
 # =============================================================================== property oracle
-def _field_classes(spec):
-    """field name -> exact | uid | random | now | today   (default exact)"""
-    cl = {}
+def _kind_class(f):
+    k = f[0]
+    if k in ("uid", "puid", "alpha"):
+        return k
+    if k == "lazyref":
+        return "random"
+    if k == "datetime" and f[1] == "s" and f[2] == "now":
+        return "now"
+    if k == "datetime" and f[1] == "s" and f[2] == "today":
+        return "today"
+    return "exact"
+
+
+def _row_classes(spec):
+    """per delivered row (index k): {field name: (class, field spec)}.  Process-programs: from the
+    unrolled trace (delivered rows are a prefix of it); other recipes: by field name."""
     if spec["k"] == "prog":
-        for t in spec["templates"]:
-            for name, f in _field_names(t):
-                k = f[0]
-                if k in ("uid", "puid", "alpha"):
-                    cl[(t["table"], name)] = k
-                elif k == "lazyref":
-                    cl[(t["table"], name)] = "random"
-                elif k == "datetime" and f[1] == "s" and f[2] == "now":
-                    cl[(t["table"], name)] = "now"
-                elif k == "datetime" and f[1] == "s" and f[2] == "today":
-                    cl[(t["table"], name)] = "today"
-    elif spec["k"] == "yaml":
-        for n in spec.get("random_fields", []):
-            cl[(None, n)] = "random"
-    return cl
+        return [(table, {name: (_kind_class(f), f) for name, f, _ in fields}) for table, fields in prog_trace(spec)]
+    return None
 
 
-def _class_of(cl, table, name):
-    return cl.get((table, name)) or cl.get((None, name)) or "exact"
+def _class_of(spec, rowcls, k, table, name):
+    if rowcls is not None:
+        if k < len(rowcls) and rowcls[k][0] == table and name in rowcls[k][1]:
+            return rowcls[k][1][name]
+        return ("exact", None)
+    if spec["k"] == "yaml" and name in spec.get("random_fields", []):
+        return ("random", None)
+    return ("exact", None)
 
 
 def _shape(v):
     return [v[0], v[1]] if v and v[0] == "ref" else [v[0]] if v else None
 
 
-def _version_sensitive(spec, table, name):
-    if spec["k"] != "prog":
-        return False
-    for t in spec["templates"]:
-        if t["table"] == table:
-            for n, f in _field_names(t):
-                if n == name and f[0] in ("version", "failat"):
-                    return True
-    return False
-
-
 def analyse(case, obs):
-    """-> dict(leaks=[msg], stale=[msg], opts=[msg])"""
-    res = {"leaks": [], "stale": [], "opts": []}
+    """-> dict(leaks=[msg], stale=[msg], opts=[msg], alpha=[msg])"""
+    res = {"leaks": [], "stale": [], "opts": [], "alpha": []}
     seq, fresh = obs["seq"], obs["fresh"]
     windows = _windows(seq)
     uids = {}
     max_ctx_before = 0
     for i, (spec, sq, fr) in enumerate(zip(case["recipes"], seq, fresh)):
-        cl = _field_classes(spec)
+        rowcls = _row_classes(spec)
         tag = f"run {i + 1}/{len(seq)} ({spec.get('name') or spec['k']})"
         # a shared options dict that an earlier run wrote a version into
         tainted = bool(case.get("shared_opts") and spec["k"] == "prog" and not spec.get("version") and i > 0
@@ -1291,10 +1312,10 @@ def analyse(case, obs):
                                            f"{b[0]}{[n for n, _ in b[1]]} alone")
                 continue
             for (n, va), (_, vb) in zip(a[1], b[1]):
-                c = _class_of(cl, a[0], n)
+                c, fspec = _class_of(spec, rowcls, k, a[0], n)
                 if c == "exact":
                     if va != vb:
-                        if tainted and _version_sensitive(spec, a[0], n):
+                        if tainted and fspec is not None and fspec[0] in ("version", "failat"):
                             res["opts"].append(f"{tag}: row {k + 1} field {n} = {va} after an earlier run wrote "
                                                f"snowfakery_version into the shared plugin_options, {vb} alone")
                         else:
@@ -1304,12 +1325,16 @@ def analyse(case, obs):
                     if va[0] != vb[0]:
                         res["leaks"].append(f"{tag}: row {k + 1} field {n}: unique id of type {va[0]} / {vb[0]}")
                     key = ("alpha" if c == "alpha" else "num", json.dumps(va))
-                    if key in uids:
-                        res["leaks"].append(f"uid-repeat: {tag} row {k + 1} field {n}: unique id {va[1]} was already "
-                                            f"produced in {uids[key]}")
-                    uids[key] = f"{tag} row {k + 1}"
                     ci = decode_uid(c, va)
-                    if ci:
+                    if key in uids:
+                        if c == "alpha" and ci and len(ci) == 1:
+                            res["alpha"].append(f"{tag} row {k + 1} field {n}: alpha code {va[1]} (no generator context in "
+                                                f"the code, index {ci[0]}) was already produced in {uids[key]}")
+                        else:
+                            res["leaks"].append(f"uid-repeat: {tag} row {k + 1} field {n}: unique id {va[1]} was already "
+                                                f"produced in {uids[key]}")
+                    uids[key] = f"{tag} row {k + 1}"
+                    if ci and len(ci) == 2:
                         run_ctx.append(ci[0])
                         if ci[0] <= max_ctx_before:
                             res["leaks"].append(f"uid-context: {tag} row {k + 1} field {n}: generator context {ci[0]} "
@@ -1350,6 +1375,8 @@ def oracle(case, obs):
         return m if m.split(":")[0] in ("uid-repeat", "uid-context", "ids") else "leak: " + m
     if res["opts"]:
         return "shared-options: " + res["opts"][0]
+    if res["alpha"]:
+        return "alpha-repeat: " + res["alpha"][0]
     if res["stale"]:
         return "stale-clock: " + res["stale"][0]
     return None
@@ -1367,7 +1394,9 @@ def match_finding(case, obs, msg, findings):
         return None                  # something else is wrong as well: never masked
     if msg.startswith("shared-options") and F_OPTS in ids and case.get("shared_opts") and res["opts"]:
         return F_OPTS
-    if msg.startswith("stale-clock") and F_CLOCK in ids and res["stale"] and not res["opts"]:
+    if msg.startswith("alpha-repeat") and F_ALPHA in ids and res["alpha"] and not res["opts"]:
+        return F_ALPHA
+    if msg.startswith("stale-clock") and F_CLOCK in ids and res["stale"] and not res["opts"] and not res["alpha"]:
         # an earlier run of the same process must have evaluated `datetime: now`
         first = None
         for i, spec in enumerate(case["recipes"]):
